@@ -356,6 +356,11 @@ def _serialize(value: Any, memo: Optional[SerializeMemoizer]) -> Any:
         return list(value)  # TODO reversible?
     elif isinstance(value, dict):
         return {key:_serialize(elem, memo) for key, elem in value.items()}
+    elif isinstance(value, str) and type(value) is not str:
+        # Names that the grammar loader left as Token instances (template rules, "%import x (A, B)").
+        # Serialized data holds plain values only: a pickled Token is restored as lark.lexer.Token,
+        # which a compressed standalone parser can't do without lark
+        return str(value)
     # assert value is None or isinstance(value, (int, float, str, tuple)), value
     return value
 
